@@ -272,7 +272,13 @@ func diffTree(t *Template, exp, got []Obs) (clause string, detail string) {
 			return "tree:disabled-role-present:" + g.Kind, "role " + g.Path + " is in the tree but is not enabled"
 		}
 		if i > 0 && g.Kind == "agg" && (i+1 >= len(got) || got[i+1].Depth <= g.Depth) {
-			return "tree:empty-aggregator-present:" + kidsDesc(t, g.Name), "aggregator " + g.Path + " has no children but is in the tree"
+			kd := kidsDesc(t, g.Name)
+			if !strings.Contains(kd, "iterators") {
+				// not the recorded defect (an aggregator left with nothing but empty iterators): an aggregator or an
+				// include role emptied by pruning stayed in the tree - a clause of its own, outside the recorded glob
+				return "tree:emptied-aggregator-present:" + kd, "aggregator " + g.Path + " has no children but is in the tree"
+			}
+			return "tree:empty-aggregator-present:" + kd, "aggregator " + g.Path + " has no children but is in the tree"
 		}
 	}
 	if len(exp) == 1 && exp[0].Path == "*" {
@@ -281,7 +287,11 @@ func diffTree(t *Template, exp, got []Obs) (clause string, detail string) {
 			return "tree:extra-role:under-disabled-or-empty-root", fmt.Sprintf("root has %d descendants", len(got)-1)
 		}
 		if got[0].Enabled {
-			return "tree:empty-aggregator-present:root/" + kidsDesc(t, got[0].Name), "root is enabled although it is disabled or has no children"
+			kd := kidsDesc(t, got[0].Name)
+			if !strings.Contains(kd, "iterators") {
+				return "tree:emptied-aggregator-present:root/" + kd, "root is enabled although it is disabled or has no children"
+			}
+			return "tree:empty-aggregator-present:root/" + kd, "root is enabled although it is disabled or has no children"
 		}
 		return "", ""
 	}
